@@ -344,3 +344,65 @@ Lemma rpartition_char_absent c s : ~ In c s -> rpartition_char c s = ([], false,
 Proof.
   intros Hn. unfold rpartition_char. rewrite partition_char_absent by now rewrite <- in_rev. reflexivity.
 Qed.
+
+(* ---------- split on one character ---------- *)
+
+Lemma split_char_aux_map (f : char -> char) c :
+  (forall x, (f x =? c) = (x =? c)) ->
+  forall s cur, split_char_aux c (map f cur) (map f s) = map (map f) (split_char_aux c cur s).
+Proof.
+  intros Hf. induction s as [|x s IH]; intros cur; cbn [split_char_aux map].
+  - now rewrite map_rev.
+  - rewrite Hf. destruct (x =? c).
+    + cbn [map]. rewrite map_rev. f_equal. apply (IH []).
+    + apply (IH (x :: cur)).
+Qed.
+
+Lemma split_char_map (f : char -> char) c s :
+  (forall x, (f x =? c) = (x =? c)) -> split_char c (map f s) = map (map f) (split_char c s).
+Proof. intros Hf. apply (split_char_aux_map f c Hf s []). Qed.
+
+Lemma split_char_aux_nohyphen c w cur : ~ In c w -> forall rest,
+  split_char_aux c cur (w ++ rest) = split_char_aux c (rev w ++ cur) rest.
+Proof.
+  induction w as [|x w IH] in cur |- *; intros Hn rest; [reflexivity|].
+  cbn [app split_char_aux]. destruct (x =? c) eqn:E.
+  - apply N.eqb_eq in E. subst. exfalso. apply Hn. now left.
+  - rewrite IH by (intros H; apply Hn; now right). cbn [rev]. now rewrite <- app_assoc.
+Qed.
+
+(* splitting a join gives the words back when no word holds the separator *)
+Lemma split_char_join c ws : ws <> [] -> Forall (fun w => ~ In c w) ws ->
+  split_char c (join [c] ws) = ws.
+Proof.
+  intros Hne Hf. unfold split_char.
+  assert (G : forall cur, split_char_aux c cur (join [c] ws) =
+                          match ws with [] => [rev cur] | w :: ws' => (rev cur ++ w) :: ws' end).
+  { induction Hf as [|w ws Hw Hf IH]; [contradiction|]. intros cur.
+    destruct ws as [|w2 ws].
+    - cbn [join]. rewrite <- (app_nil_r w) at 1. rewrite split_char_aux_nohyphen by exact Hw.
+      cbn [split_char_aux]. now rewrite rev_app_distr, rev_involutive.
+    - rewrite join_cons. rewrite split_char_aux_nohyphen by exact Hw. cbn [app split_char_aux].
+      rewrite N.eqb_refl. rewrite rev_app_distr, rev_involutive. f_equal.
+      rewrite IH by discriminate. reflexivity. }
+  rewrite G. destruct ws; [contradiction|reflexivity].
+Qed.
+
+Lemma split_char_aux_nosep c s : forall cur, ~ In c cur -> Forall (fun w => ~ In c w) (split_char_aux c cur s).
+Proof.
+  induction s as [|x s IH]; intros cur Hc; cbn [split_char_aux].
+  - constructor; [|constructor]. now rewrite <- in_rev.
+  - destruct (x =? c) eqn:E.
+    + constructor; [now rewrite <- in_rev|]. apply IH. intros [].
+    + apply IH. intros [H|H]; [apply N.eqb_neq in E; congruence|contradiction].
+Qed.
+
+Lemma split_char_nosep c s : Forall (fun w => ~ In c w) (split_char c s).
+Proof. apply split_char_aux_nosep. intros []. Qed.
+
+Lemma split_char_nonempty c s : split_char c s <> [].
+Proof.
+  unfold split_char. generalize (@nil char). induction s as [|x s IH]; intros cur; cbn [split_char_aux]; [discriminate|].
+  destruct (x =? c); [discriminate|apply IH].
+Qed.
+
